@@ -24,6 +24,14 @@ def _params():
     # a delegate whose submit() takes one virtual second: the deadline counts from creation
     for jobs in (((0.0, 2.0, NEVER),), ((0.0, 1.0, NEVER), (0.0, 2.0, NEVER))):
         out.append(dict(jobs=jobs, api="executor", user_cancel=False, submit_delay=1.0))
+    # the cancel attempt on a running future takes 1.5 virtual seconds and is refused: a later deadline
+    # must still be served on time
+    for jobs in (((0.0, 1.0, "slow_refuse"), (0.0, 3.5, NEVER)), ((0.0, 1.0, "slow_refuse"), (2.0, 1.0, NEVER)),
+                 ((0.0, 1.0, "slow_refuse"), (0.0, 2.0, NEVER))):
+        out.append(dict(jobs=jobs, api="executor", user_cancel=False))
+    # a done-callback of a timed-out future submits again to the same executor (retry-on-timeout)
+    for jobs in (((0.0, 1.0, NEVER),), ((0.0, 1.0, NEVER), (0.5, 2.0, NEVER))):
+        out.append(dict(jobs=jobs, api="executor", user_cancel=False, resubmit=True))
     for jobs in (((0.0, 3.0, NEVER), (0.5, 1.0, NEVER), (1.0, 1.0, NEVER)),
                  ((0.0, 2.0, NEVER), (0.0, 2.0, NEVER), (1.0, 0.5, -0.25)),
                  ((0.0, 1.0, 0.0), (0.5, 2.0, NEVER), (0.5, 1.0, +1.0))):
@@ -42,7 +50,7 @@ def body(mc, p):
     jobs = p["jobs"]
     default = 2.0
     ex = TimeoutExecutor(base, default)
-    fs = [None] * len(jobs)
+    fs = [None] * (len(jobs) + 1)
     inputs = [None] * len(jobs)
 
     def wrap(j, f):
@@ -76,6 +84,27 @@ def body(mc, p):
             mc.emit("submit", j=j, deadline=mc.clock + (default if p["api"] == "default" else to))
             wrap(j, f)
             fs[j] = f
+            if p.get("resubmit") and j == 0:
+                def again(_f):
+                    jr = len(jobs)
+                    fr = ex.submit_timeout(1.0, lambda: None)
+                    mc.emit("submit", j=jr, deadline=mc.clock + 1.0)
+                    wrap(jr, fr)
+                    fs[jr] = fr
+                f.add_done_callback(again)
+            if comp == "slow_refuse":
+                idx = [k for k, it in enumerate(base.items) if it.fn is fn_j]
+                bf = base.items[idx[0]].future
+                bf.set_running_or_notify_cancel()
+                base.items[idx[0]].state = "running"
+
+                def slow_cancel():
+                    mc.emit("slowcancel.begin", j=j)
+                    mc.sleep(1.5)
+                    mc.emit("slowcancel.end", j=j)
+                    return False
+                bf.cancel = slow_cancel
+                return
             if comp == "running":
                 idx = [k for k, it in enumerate(base.items) if it.fn is fn_j]
                 base.items[idx[0]].future.set_running_or_notify_cancel()
@@ -104,6 +133,8 @@ def body(mc, p):
         mc.spawn(ucancel, "user")
     mc.sleep(12)
     mc.observe(final=tuple(snapshot(f) if f is not None else ("missing", None) for f in fs))
+    if p.get("resubmit"):
+        mc.observe(resubmitted=fs[len(jobs)] is not None)
     ex.shutdown(wait=False)
 
 
@@ -112,7 +143,11 @@ def check(x):
     if not x.require(x.end == "done" and "final" in x.obs, "bad-ending", end=x.end):
         return
     log = x.log
-    for j, (sub, to, comp) in enumerate(p["jobs"]):
+    alljobs = list(p["jobs"])
+    if p.get("resubmit"):
+        x.require(x.obs.get("resubmitted") is True, "resubmitting-callback-did-not-return")
+        alljobs.append((None, 1.0, NEVER))
+    for j, (sub, to, comp) in enumerate(alljobs):
         se = [e for e in log if e["kind"] == "submit" and e["j"] == j]
         if not se:
             continue
@@ -130,7 +165,15 @@ def check(x):
             x.require(len(attempts) == 1 or x.jump, "no-cancel-at-deadline", n=len(attempts),
                       detail="future %d deadline %r done %r" % (j, deadline, t_done))
             if attempts and not x.jump:
-                x.require(attempts[0]["t"] <= deadline + TOL, "late-cancel",
+                # the one timeout thread may be inside a (user-supplied, slow) cancel() at the deadline:
+                # then "at the deadline" means as soon as that call has returned
+                due = deadline
+                for b_ in log:
+                    if b_["kind"] == "slowcancel.begin" and b_["t"] <= deadline + TOL:
+                        ends = [e_["t"] for e_ in log if e_["kind"] == "slowcancel.end" and e_["j"] == b_["j"]]
+                        if ends and ends[0] >= deadline - TOL:
+                            due = max(due, ends[0])
+                x.require(attempts[0]["t"] <= due + TOL, "late-cancel",
                           detail="future %d deadline %r, cancel attempt at %r" % (j, deadline, attempts[0]["t"]),
                           lateness=round(attempts[0]["t"] - deadline, 2))
         elif t_done < deadline - TOL:
